@@ -29,13 +29,17 @@ ASSUMPTIONS = [
 
 @st.composite
 def wolf_case(draw):
-    def par():
+    def inside():
         return draw(st.one_of(st.floats(-1.0, 1.0), st.floats(-1.0, 1.0),
                               st.sampled_from([1.0, -1.0, 0.0, 0.9, -0.9, 0.99, 0.2257, 0.814]),
-                              st.floats(0.9, 1.0), st.floats(-1.0, -0.9),
-                              st.floats(1.0, 1.2), st.floats(-1.2, -1.0),
-                              st.sampled_from([math.nextafter(1.0, 2.0), -math.nextafter(1.0, 2.0), 1e300, float("inf")])))
-    return {"w": [par(), par(), par(), par()]}
+                              st.floats(0.9, 1.0), st.floats(-1.0, -0.9)))
+    w = [inside(), inside(), inside(), inside()]
+    if draw(st.integers(0, 3)) == 0:
+        out = draw(st.one_of(st.floats(1.0, 1.2), st.floats(-1.2, -1.0),
+                             st.sampled_from([math.nextafter(1.0, 2.0), -math.nextafter(1.0, 2.0), 1e300, float("inf"),
+                                              float("-inf")])))
+        w[draw(st.integers(0, 3))] = out
+    return {"w": w}
 
 
 def unitarity_defect(r):
